@@ -25,6 +25,7 @@ namespace NV.C14
 def ringEv : Ev → Bool
   | .snoop _ _ => false
   | .lpcerr => false
+  | .vreq _ => false
   | _ => true
 
 /-- the stream of user `k`: the events tagged `k`, in trace order -/
@@ -353,6 +354,11 @@ theorem pres_stepM (k : Nat) (s0 : St) (w : World) (op : MOp) : PresAt k s0 w (s
     · exact pres_stepEach k s0 _ _ w
   | writeR u v d =>
     simp only [stepM]
+    have h0 : PresAt k s0 w (w, if v = true then [(u, Ev.vreq d)] else []) := by
+      apply pres_note
+      split
+      · by_cases hu : u = k <;> simp [userEvs, hu, ringEv]
+      · rfl
     have h1 := pres_writeW k s0 (fuelOf w) w u v d
     have h2 : PresAt k s0 (writeW (fuelOf w) w u v d).1
         ((writeW (fuelOf w) w u v d).1, if (writeW (fuelOf w) w u v d).2.2 = true then [] else [(u, Ev.lpcerr)]) := by
@@ -361,7 +367,7 @@ theorem pres_stepM (k : Nat) (s0 : St) (w : World) (op : MOp) : PresAt k s0 w (s
       · rfl
       · by_cases hu : u = k <;> simp [userEvs, hu, ringEv]
     have h3 := pres_stepEach k s0 (fun _ => Op.showSt) (List.range w.length) (writeW (fuelOf w) w u v d).1
-    have := pres_comp (pres_comp h1 h2) h3
+    have := pres_comp (pres_comp (pres_comp h0 h1) h2) h3
     simpa [pr, List.append_assoc] using this
 
 theorem pres_runM (k : Nat) (s0 : St) : ∀ (ops : List MOp) (w : World), PresAt k s0 w (runM w ops) := by
